@@ -1666,3 +1666,14 @@ Section Main2.
   Qed.
 End Main2.
 Set Default Proof Using "Type".
+
+(* any sequence of load_waveforms calls leaves the files unchanged and every call returns what
+   the same query returns on the initial files (in particular what it returned the first time) *)
+Lemma loader_calls_pure V (F : files V) qs :
+  fst (loader_calls V F qs) = F /\
+  snd (loader_calls V F qs) = map (fun q => snd (loader_call V F q)) qs.
+Proof.
+  induction qs as [|q t IH]; [split; reflexivity|]. destruct IH as [IH1 IH2].
+  cbn [loader_calls]. cbv zeta. change (fst (loader_call V F q)) with F.
+  cbn [fst snd map]. rewrite IH1, IH2. split; reflexivity.
+Qed.
